@@ -15,10 +15,12 @@ let mk ~pre ~op ~iclass ~xfers ~trace ~post ~gen ~fault : M.trans =
 let run ~pre ~op ~iclass ~xfers ~trace ~post ~gen ~fault : (string * string * string) list =
   let t = mk ~pre ~op ~iclass ~xfers ~trace ~post ~gen ~fault in
   let halted = (iclass = "blockerr" || iclass = "panic") in
-  List.filter_map (fun n ->
+  let l = List.filter_map (fun n ->
       let i = int_of_n n in
       if halted && i <> 7 && i <> 17 then None
-      else Some (Printf.sprintf "C%02d" i, Printf.sprintf "c%02d_ok" i, "")) (M.failing t)
+      else Some (Printf.sprintf "C%02d" i, Printf.sprintf "c%02d_ok" i, "")) (M.failing t) in
+  (* of C09 only the clause about failing blocks speaks about a halted chain *)
+  if halted && not (M.c09_live t) then ("C09", "c09_live", "") :: l else l
 
 let status_in (s : M.state) id = match M.find_auction s id with Some a -> Some a.M.a_status | None -> None
 
